@@ -21,7 +21,7 @@
    named at the theorems; time tags: C10_timetag_... (model, calendar, fraction). *)
 From Coq Require Import List ZArith.
 From RtoscV Require Import Pretty.Tok Pretty.FloatFmt Pretty.PrintModel Pretty.ScanModel
-  Pretty.PrettyProofs Pretty.FloatProofs Pretty.SymBlobProofs Pretty.RangeProofs Pretty.RunProofs Pretty.ListProofs Pretty.ArrayProofs Pretty.MixedProofs Pretty.MixedPrint Pretty.TimeFmt Pretty.TimeProofs Pretty.PrettyRegress.
+  Pretty.PrettyProofs Pretty.FloatProofs Pretty.SymBlobProofs Pretty.RangeProofs Pretty.RunProofs Pretty.ListProofs Pretty.ArrayProofs Pretty.MixedProofs Pretty.MixedPrint Pretty.TotalProofs Pretty.TimeFmt Pretty.TimeProofs Pretty.PrettyRegress.
 Import ListNotations.
 Local Open Scope Z_scope.
 
@@ -164,6 +164,23 @@ Theorem C10_message_any_partial : forall (dec2f dec2d : list Z -> Z) o addr tvs 
     scan_message dec2f dec2d text (Z.of_nat (length slots)) = Ok (addr, slots, []) /\
     expand_deep slots = Some (flat (canon tvs)).
 Proof. exact message_roundtrip_mixed_nz. Qed.
+
+(* THE HYPOTHESIS "print... = Some _" OF THE TWO THEOREMS ABOVE HOLDS FOR EVERY
+   SUCH LIST: the printer model is total there - the range conversion never
+   takes a path the model does not cover (CUnmod), every value, repetition,
+   range and array is printed, and the value printed first never needs a line
+   break in front of the buffer (print_arg_vals starts at column 0; a message
+   may break after its address).  So the theorems speak about every list of
+   good values and arrays, every option record. *)
+Theorem C10_print_any_total : forall o tvs,
+  Forall (goodtv o) tvs -> nozmix (scalars tvs) -> Z.of_nat (length (flat tvs)) < 2 ^ 31 ->
+  exists text w, print_arg_vals o (flat tvs) 0 = Some (text, w).
+Proof. exact print_mixed_total_nz. Qed.
+
+Theorem C10_print_message_any_total : forall o addr tvs,
+  Forall (goodtv o) tvs -> nozmix (scalars tvs) -> Z.of_nat (length (flat tvs)) < 2 ^ 31 ->
+  exists text w, print_message o addr (flat tvs) 0 = Some (text, w).
+Proof. exact print_message_mixed_total_nz. Qed.
 
 (* non-vacuity: [1 2 3 4 5 6 9] 9 10 11 12 13 true [] [] [] [] [] is printed
    "[1 ... 6 9] 9 ... 13 true 5x[]" *)
